@@ -24,7 +24,7 @@ func (vc *VC) streamFns() {
 	vc.declareFun("ghost!faultpos", []string{sBV64, sBV64}, sBV64)
 }
 
-func (vc *VC) getPos(st *State, r Val) string   { return vc.getGhost(st, "pos", vc.rdKey(r), sBV64) }
+func (vc *VC) getPos(st *State, r Val) string    { return vc.getGhost(st, "pos", vc.rdKey(r), sBV64) }
 func (vc *VC) setPos(st *State, r Val, v string) { vc.setGhost(st, "pos", vc.rdKey(r), sBV64, v) }
 func (vc *VC) inAt(r Val, k string) string       { return app("ghost!instream", r.L[0], r.L[1], k) }
 func (vc *VC) eofPos(r Val) string               { return app("ghost!eofpos", r.L[0], r.L[1]) }
@@ -67,7 +67,7 @@ func (vc *VC) readInto(st *State, r Val, p Val) (string, Val) {
 	q := vc.fresh("i")
 	inr := and(app("bvsle", p.L[1], q), app("bvslt", q, app("bvadd", p.L[1], n)))
 	vc.assume("true", fmt.Sprintf("(forall ((%s %s)) (! (and (= (select %s %s) %s) %s) :pattern ((select %s %s))))", q, sBV64, na, q,
-			ite(inr, vc.inAt(r, app("bvadd", pos, app("bvsub", q, p.L[1]))), sel(old, q)), rangeEquiv(q, p.L[1], n), na, q))
+		ite(inr, vc.inAt(r, app("bvadd", pos, app("bvsub", q, p.L[1]))), sel(old, q)), rangeEquiv(q, p.L[1], n), na, q))
 	vc.setHeap(st, hn, hs, sto(h, p.L[0], na))
 	vc.setPos(st, r, np)
 	return n, err
